@@ -187,12 +187,12 @@ def execOp (chk : Bool) (tok : List String) : String :=
       let a := parseInts a; let b := parseInts b
       if a.length == b.length && RingZ.karatsubaOk a.length a.length then renderInts (RingZ.karatsuba a b) else "skip"
   | ["reduce_cyc", n, p] => renderInts (RingZ.reduceCyc (parseNat n) (parseInts p))
-  | ["field_norm", f] => let f := parseInts f; renderInts (RingZ.fieldNorm f.length f)
+  | ["field_norm", f] => let f := parseInts f; renderInts (RingZ.fieldNormImpl f.length f)
   | ["lift_poly", f] => renderInts (RingZ.lift (parseInts f))
   | ["galois_adjoint", f] => renderInts (RingZ.adjoint (parseInts f))
   | ["lift_step", f, g, cf, cg] =>
       let f := parseInts f
-      let r := RingZ.liftStep f.length f (parseInts g) (parseInts cf) (parseInts cg)
+      let r := RingZ.liftStepImpl f.length f (parseInts g) (parseInts cf) (parseInts cg)
       renderInts r.1 ++ " " ++ renderInts r.2
   | ["first_drawn", n, seed] =>
       -- what the real `gen_b0(seed)` draws first must be what the model derives from the unchanged seed
